@@ -11,6 +11,11 @@ ASSUMPTIONS = ["exact-regime theorems over R; tolerance bands are sampled, not p
                "float arithmetic vs real arithmetic is trusted and sampled (see DESIGN.md section 1)"]
 
 
+# each ATOL decision (band shortcut or filtered near-identity gate) costs at most 1e-7 in the operator; a proposal has at
+# most 8 gates: a residual up to 8e-7 is tolerance-sized, anything larger is a different defect
+BAND_RESIDUAL = 8e-7
+
+
 def _first_failing_gate(f):
     """Re-run the case gate by gate to find the gate the decomposer fails on (angle, axis)."""
     case = f["case"]
@@ -41,16 +46,16 @@ def _proposal_distance(g, dec_name):
 def cls_atol_band(f):
     """F3: the decomposers decide with ATOL = 1e-7 (alpha == pi branch, |a| < ATOL, |a -/+ 1| < ATOL,
     |sin(theta2/2)| < ATOL, |angle| < ATOL, identity filtering), so for a gate strictly inside one of
-    these bands the proposal is off by up to ~1e-7 -- right to the library's own tolerance -- while
+    these bands the proposal is off by up to ~1e-7 per decision -- right to the library's own tolerance -- while
     check_gate_replacement compares with allclose(atol=1e-8) and raises. Signature: decompose raised
-    ValueError at a gate whose proposal is within 3e-7 of the gate (up to phase) on the gate's qubits."""
+    ValueError at a gate whose proposal is within 8e-7 of the gate (up to phase) on the gate's qubits."""
     if "raised value" not in f["detail"]:
         return False
     g = _first_failing_gate(f)
     if g is None:
         return False
     d, _ = _proposal_distance(g, f["case"]["pass"][1])
-    return d is not None and d <= 3e-7
+    return d is not None and d <= BAND_RESIDUAL
 
 
 def cls_cnot_lemma55(f):
@@ -75,7 +80,7 @@ def cls_cnot_lemma55(f):
     want = oracles.kraus_ops([g], qm, [])
     got = oracles.kraus_ops(out, qm, [])
     zc = oracles.embed(2, oracles.PZ, [1])
-    return oracles.phase_dist(want, got) > 1e-6 and oracles.phase_dist(want, zc @ got) <= 3e-7
+    return oracles.phase_dist(want, got) > 1e-6 and oracles.phase_dist(want, zc @ got) <= BAND_RESIDUAL
 
 
 CLASSIFIERS = {"atol_band_residual": cls_atol_band, "cnot_lemma55_control_sign": cls_cnot_lemma55}
